@@ -603,3 +603,158 @@ def r_templates_constant(repo, rep, R, files, consequence):
                       '%s, which is not a template written in the source: %s' % (why, consequence))
     rep.check(True, R, files[0], 'templates:constant', 'every str.format in %d printer modules is applied to a template written in the source (%d sites)' % (len(files), n), '')
     return n
+
+
+# ---------------------------------------------------------------------------------------------------------------------
+# the language selection is one setting of the process
+# ---------------------------------------------------------------------------------------------------------------------
+LANG_REL = 'depccg/lang.py'
+SCOPED_STORES = ('local', 'threading.local', '_threading_local.local', 'ContextVar', 'contextvars.ContextVar', 'werkzeug.local.Local')
+
+
+def r_language_setting(repo, rep, R, consequence):
+    """what get_global_language() returns is what the last set_global_language_to() stored, whoever asks: the selection is
+    kept in a module-level name (or a cell of a module-level object) -- not in a thread-local or context-local store,
+    where a language chosen at start-up is invisible to the worker threads that read the files."""
+    mod = repo.module(LANG_REL)
+    setter, getter = mod.get('set_global_language_to'), mod.get('get_global_language')
+    w = '%s:%s set_global_language_to' % (LANG_REL, setter.lineno)
+    inits = {}
+    for s in mod.tree.body:
+        if isinstance(s, (ast.Assign, ast.AnnAssign)) and s.value is not None:
+            for t in (s.targets if isinstance(s, ast.Assign) else [s.target]):
+                if isinstance(t, ast.Name):
+                    inits[t.id] = s.value
+    globs = {n for g in ast.walk(setter) if isinstance(g, ast.Global) for n in g.names}
+    stored = set()       # module-level names the setter writes (rebinding, item, attribute, ContextVar.set)
+    for n in ast.walk(setter):
+        if isinstance(n, (ast.Assign, ast.AugAssign, ast.AnnAssign)):
+            for t in (n.targets if isinstance(n, ast.Assign) else [n.target]):
+                if isinstance(t, ast.Name) and t.id in globs:
+                    stored.add(t.id)
+                if isinstance(t, (ast.Subscript, ast.Attribute)) and isinstance(t.value, ast.Name) and t.value.id in inits:
+                    stored.add(t.value.id)
+        if isinstance(n, ast.Call) and isinstance(n.func, ast.Attribute) and isinstance(n.func.value, ast.Name) and n.func.value.id in inits \
+                and n.func.attr in ('set', 'update', '__setitem__', 'append', 'setdefault'):
+            stored.add(n.func.value.id)
+        if isinstance(n, ast.Call) and isinstance(n.func, ast.Name) and n.func.id == 'setattr' and n.args and isinstance(n.args[0], ast.Name) and n.args[0].id in inits:
+            stored.add(n.args[0].id)
+    read = {n.id for r in ast.walk(getter) if isinstance(r, ast.Return) and r.value is not None for n in ast.walk(r.value) if isinstance(n, ast.Name)}
+    rep.check(bool(stored & read), R, w, 'lang:setter-getter', 'get_global_language returns what set_global_language_to stored (%s)' % sorted(stored & read),
+              'set_global_language_to stores into %s, get_global_language reads %s: %s' % (sorted(stored), sorted(read & set(inits)), consequence))
+    scoped = []
+    for nm in sorted(stored | (read & set(inits))):
+        v = inits.get(nm)
+        if isinstance(v, ast.Call) and src(v.func) in SCOPED_STORES:
+            scoped.append('%s = %s' % (nm, src(v)[:40]))
+    rep.check(not scoped, R, w, 'lang:process-wide', 'the selected language is kept in a plain module-level object: one setting for the whole process',
+              'the selected language is kept per thread / per context (%s): a language selected once at start-up is not the one seen on another thread, which '
+              'falls back to the default -- %s' % ('; '.join(scoped), consequence))
+
+
+# ---------------------------------------------------------------------------------------------------------------------
+# what survives pickling / copying
+# ---------------------------------------------------------------------------------------------------------------------
+REDUCE_EXAMPLE = '''
+class Node(object):
+    def __init__(self, cat, children, label, head=True):
+        self.cat = cat
+        self.children = children
+        self.label = label
+        self.head = head
+
+    def __reduce__(self):
+        return (Node, (self.cat, self.children, self.label))
+'''
+
+
+def lossy_serialisers(cls):
+    """the results of parsing.run travel through pickle between the worker processes and the caller, and the printers /
+    tools copy trees: a class that says itself how it is pickled or copied must carry every field its constructor sets.
+    -> [(node, text)] for __reduce__ / __reduce_ex__ / __getnewargs__ / __getstate__ / __copy__ / __deepcopy__ that drop a field"""
+    out = []
+    init = [f for f in cls.body if isinstance(f, ast.FunctionDef) and f.name == '__init__']
+    if not init:
+        return out
+    init = init[0]
+    params = [a.arg for a in init.args.posonlyargs + init.args.args][1:] + [a.arg for a in init.args.kwonlyargs]
+    n_required = len(init.args.posonlyargs + init.args.args) - 1 - len(init.args.defaults)
+    field_of = {}       # constructor parameter -> field it is stored in
+    fields = []
+    for s in ast.walk(init):
+        if isinstance(s, (ast.Assign, ast.AnnAssign)) and s.value is not None:
+            for t in (s.targets if isinstance(s, ast.Assign) else [s.target]):
+                if isinstance(t, ast.Attribute) and isinstance(t.value, ast.Name) and t.value.id == 'self':
+                    fields.append(t.attr)
+                    if isinstance(s.value, ast.Name) and s.value.id in params:
+                        field_of[s.value.id] = t.attr
+    for f in cls.body:
+        if not isinstance(f, ast.FunctionDef):
+            continue
+        rets = [r.value for r in ast.walk(f) if isinstance(r, ast.Return) and r.value is not None]
+        if f.name in ('__reduce__', '__reduce_ex__', '__getnewargs__', '__getnewargs_ex__'):
+            for r in rets:
+                args = None
+                state = None
+                if f.name.startswith('__reduce') and isinstance(r, ast.Tuple) and len(r.elts) >= 2 and isinstance(r.elts[1], ast.Tuple) \
+                        and isinstance(r.elts[0], ast.Name) and r.elts[0].id == cls.name:
+                    args = r.elts[1].elts
+                    state = r.elts[2] if len(r.elts) > 2 else None
+                elif f.name == '__getnewargs__' and isinstance(r, ast.Tuple):
+                    args = r.elts
+                if args is None:
+                    continue
+                carried = set()
+                for i, a in enumerate(args):
+                    if i < len(params) and isinstance(a, ast.Attribute) and isinstance(a.value, ast.Name) and a.value.id == 'self':
+                        carried.add(a.attr)
+                if state is not None:
+                    carried |= {n.attr for n in ast.walk(state) if isinstance(n, ast.Attribute) and isinstance(n.value, ast.Name) and n.value.id == 'self'}
+                    if any(isinstance(n, ast.Attribute) and n.attr == '__dict__' for n in ast.walk(state)) or \
+                            any(isinstance(n, ast.Call) and isinstance(n.func, ast.Name) and n.func.id == 'vars' for n in ast.walk(state)):
+                        carried |= set(fields)
+                missing = [x for x in dict.fromkeys(fields) if x not in carried]
+                wrong = [(params[i], src(a)) for i, a in enumerate(args) if i < len(params) and params[i] in field_of
+                         and isinstance(a, ast.Attribute) and isinstance(a.value, ast.Name) and a.value.id == 'self' and a.attr != field_of[params[i]] and a.attr in fields]
+                if missing or wrong or len(args) < n_required:
+                    out.append((f, '%s.%s rebuilds the object from %s: %s' % (
+                        cls.name, f.name, [src(a) for a in args],
+                        ('the field(s) %s are not carried and come back as the constructor default' % missing) if missing else
+                        ('arguments in the wrong place: %s' % wrong) if wrong else 'too few constructor arguments')))
+        if f.name == '__getstate__':
+            for r in rets:
+                if isinstance(r, (ast.Dict, ast.Tuple, ast.List)):
+                    carried = {n.attr for n in ast.walk(r) if isinstance(n, ast.Attribute) and isinstance(n.value, ast.Name) and n.value.id == 'self'}
+                    missing = [x for x in dict.fromkeys(fields) if x not in carried]
+                    if missing:
+                        out.append((f, '%s.__getstate__ saves %s: the field(s) %s are lost' % (cls.name, src(r)[:60], missing)))
+        if f.name in ('__copy__', '__deepcopy__'):
+            for r in rets:
+                if isinstance(r, ast.Call) and isinstance(r.func, ast.Name) and r.func.id in (cls.name,) or (
+                        isinstance(r, ast.Call) and src(r.func) in ('type(self)', 'self.__class__')):
+                    carried = {n.attr for n in ast.walk(r) if isinstance(n, ast.Attribute) and isinstance(n.value, ast.Name) and n.value.id == 'self'}
+                    missing = [x for x in dict.fromkeys(fields) if x not in carried]
+                    if missing:
+                        out.append((f, '%s.%s builds the copy as %s: the field(s) %s are not carried' % (cls.name, f.name, src(r)[:60], missing)))
+    return out
+
+
+def r_serialisation_complete(repo, rep, R, targets, consequence):
+    """targets: [(file, class name)]"""
+    from .core import attach_parents
+    ex = attach_parents(ast.parse(REDUCE_EXAMPLE))
+    if len(lossy_serialisers(ex.body[0])) != 1:
+        raise AnalysisError('the serialisation rule does not match its positive example')
+    for rel, cname in targets:
+        mod = repo.module(rel)
+        cls = mod.get(cname, required=False) if hasattr(mod, 'get') else None
+        if not isinstance(cls, ast.ClassDef):
+            cands = [c for c in ast.walk(mod.tree) if isinstance(c, ast.ClassDef) and c.name == cname]
+            if not cands:
+                raise AnalysisError('%s: class %s not found' % (rel, cname))
+            cls = cands[0]
+        hits = lossy_serialisers(cls)
+        own = [f.name for f in cls.body if isinstance(f, ast.FunctionDef) and f.name in ('__reduce__', '__reduce_ex__', '__getnewargs__', '__getstate__', '__setstate__', '__copy__', '__deepcopy__')]
+        rep.check(not hits, R, '%s:%s %s' % (rel, hits[0][0].lineno if hits else cls.lineno, cname), '%s:%s:serialisation' % (rel, cname),
+                  '%s is pickled and copied %s: every field its constructor sets travels' % (cname, 'by its own methods %s, which carry every field' % own if own else 'field by field (no method of its own)'),
+                  '%s -- %s' % ('; '.join(t for _, t in hits), consequence))
